@@ -134,17 +134,29 @@ DIAGNOSTIC = {"F1": "FM", "F4": "FM", "G4": "R14", "R08": "R14", "R11u": "R14", 
 _decided_cache = {}
 
 
-def _decider_clean(model, rid, tier):
+def _decider_state(model, rid, tier):
+    """'clean' (evaluated, holds) | 'bad' (evaluated, reports a violation) | 'undecided' (could not be evaluated)"""
     key = (id(model), rid)
     if key not in _decided_cache:
         f, _, _ = RULES[rid]
         cx = RuleCtx(model, tier, rid)
         try:
             f(cx)
-            _decided_cache[key] = not any(i.verdict == BAD for i in cx.insts) and any(i.verdict == OK for i in cx.insts)
+            _decided_cache[key] = _state_of(cx)
         except Exception:
-            _decided_cache[key] = False
-    return _decided_cache[key]
+            _decided_cache[key] = "undecided"
+    v = _decided_cache[key]
+    return {True: "clean", False: "bad"}.get(v, v) if isinstance(v, bool) else v
+
+
+def _state_of(cx):
+    if any(i.verdict == BAD for i in cx.insts):
+        return "bad"
+    return "clean" if any(i.verdict == OK for i in cx.insts) else "undecided"
+
+
+def _decider_clean(model, rid, tier):
+    return _decider_state(model, rid, tier) == "clean"
 
 
 def run_rules(model, prop, tier, only=None):
@@ -161,9 +173,11 @@ def run_rules(model, prop, tier, only=None):
         try:
             f(cx)
             if not getattr(cx, "partial", False):
-                _decided_cache.setdefault((id(model), rid), not any(i.verdict == BAD for i in cx.insts) and any(i.verdict == OK for i in cx.insts))
+                _decided_cache.setdefault((id(model), rid), _state_of(cx))
         except AnalysisError as e:
             my_errors.append(str(e))
+            if not getattr(cx, "partial", False):
+                _decided_cache.setdefault((id(model), rid), "undecided")
         except Exception as e:  # checker bug / unsupported construct: analysis error, never a verdict
             tb = traceback.format_exc(limit=6)
             my_errors.append(f"[{rid}] internal error {type(e).__name__}: {e}\n{tb}")
@@ -179,6 +193,18 @@ def run_rules(model, prop, tier, only=None):
             for e in my_errors:
                 cx.note(None, construct=f"{rid}: {e[:160]}", detail=f"shape not recognised by this diagnostic rule; decided by rule {dec}, which holds")
             my_errors = []
+        elif decs and any(i.verdict == BAD for i in cx.insts) and all(d in RULES for d in decs):
+            # a diagnostic (pattern) rule reports, and a rule that decides the behaviour could NOT be evaluated (a gap of
+            # the model, not a verdict) while none of them reports: the pattern alone is not a positive identification
+            states = [_decider_state(model, d, tier) for d in decs]
+            if "bad" not in states and "undecided" in states:
+                und = [d for d, st in zip(decs, states) if st == "undecided"]
+                for i in cx.insts:
+                    if i.verdict == BAD:
+                        i.verdict = NOTE
+                        i.trivial = True
+                        i.detail = f"(diagnostic for one code shape; its deciding rule {'+'.join(und)} could not be evaluated: not a verdict) " + i.detail
+                my_errors.append(f"[{rid}] the diagnostic rule reports, but the deciding rule(s) {'+'.join(und)} could not be evaluated on this tree: not decided")
         errors.extend(my_errors)
         # one root cause over many class descriptors: keep three representatives per (rule, anchor)
         groups = {}
